@@ -3,6 +3,7 @@ package e1
 import (
 	"bytes"
 	"fmt"
+	"sort"
 	"testing"
 	"testing/synctest"
 	"time"
@@ -88,11 +89,20 @@ func runAPI(t *testing.T, rc *core.RunCtx) {
 			} else if tp.Chance(2, 3) {
 				role = "block-liar"
 				if tp.Chance(1, 2) {
-					beh.BlockLieAll = 1 + tp.Intn(numBlkKinds-1)
+					// (blkStream is not drawn: see below)
+					beh.BlockLieAll = 1 + tp.Intn(numBlkKinds-2)
 				} else {
 					beh.BlockLie = map[chainhash.Hash]int{}
 					for k := 0; k < 1+tp.Intn(3); k++ {
-						beh.BlockLie[chain[1+tp.Intn(n)].Hash] = 1 + tp.Intn(numBlkKinds-1)
+						b := chain[1+tp.Intn(n)]
+						kind := 1 + tp.Intn(numBlkKinds-2)
+						// Every silent lie about a block of even height
+						// becomes a stream of other blocks instead (no
+						// extra draw: earlier tapes keep their meaning).
+						if kind == blkSilent && b.Height%2 == 0 {
+							kind = blkStream
+						}
+						beh.BlockLie[b.Hash] = kind
 					}
 				}
 			}
@@ -340,17 +350,37 @@ func runAPI(t *testing.T, rc *core.RunCtx) {
 						// (Requests of an overlapping call for the same block
 						// that went to a node serving it truthfully are not
 						// this call's attempts.)
-						liarAsks := 0
+						var at []time.Time
 						for _, p := range w.peers[1:] {
 							kind := p.beh.BlockLieAll
 							if kk, ok := p.beh.BlockLie[c.blk.Hash]; ok {
 								kind = kk
 							}
-							if kind != blkHonest {
-								liarAsks += asked(p)
+							if kind == blkHonest {
+								continue
+							}
+							for i, g := range p.gotGetData {
+								if g == c.blk.Hash && i < len(p.gotGetDataAt) {
+									at = append(at, p.gotGetDataAt[i])
+								}
 							}
 						}
-						if liarAsks >= 4 {
+						sort.Slice(at, func(i, j int) bool { return at[i].Before(at[j]) })
+						// ... and on the unchanged schedule: the second
+						// attempt 2 s after the first, the third 4 s after
+						// the second, the fourth 8 s after the third (a
+						// change that stretches or cuts the attempts does
+						// not look like this).
+						onSchedule := len(at) >= 4
+						for i, gap := range []time.Duration{2 * time.Second, 4 * time.Second, 8 * time.Second} {
+							if onSchedule {
+								d := at[i+1].Sub(at[i]) - gap
+								if d < -300*time.Millisecond || d > 300*time.Millisecond {
+									onSchedule = false
+								}
+							}
+						}
+						if onSchedule {
 							why = "all-four-attempts-the-budget-allows-went-to-silent-or-lying-peers"
 						}
 					}
